@@ -78,6 +78,15 @@ class TmContract(Contract):
         tmm = g.module(TMM)
         for i, o in enumerate(objs):
             check_coherent(g, o, 'operand %d after the call' % i)
+        # ownership: the induction over histories needs every transform to own its two buffers exclusively
+        # (otherwise a later in-place writer of one object silently breaks another)
+        allt = list(objs) + ([res] if isinstance(res, tmm.tm) else [r for r in (res if isinstance(res, (tuple, list)) else []) if isinstance(r, tmm.tm)])
+        for i in range(len(allt)):
+            for j in range(i + 1, len(allt)):
+                if allt[i] is allt[j]:
+                    continue
+                share = any(_np.shares_memory(x, y) for x in (allt[i].TM, allt[i].TAA) for y in (allt[j].TM, allt[j].TAA))
+                g.holds('distinct transforms %d and %d share no buffer' % (i, j), not share)
         if isinstance(res, tmm.tm):
             check_coherent(g, res, 'result')
         elif isinstance(res, (tuple, list)):
